@@ -20,7 +20,9 @@ pub fn gen_script(rng: &mut Rng, sc: &Scenario, d: &DataGen, cfg: ScriptCfg) -> 
     let n_ops = rng.usize_in(cfg.min_ops, cfg.max_ops);
     let mut ops = vec![];
     let mut visited: Vec<Vec<f64>> = vec![d.alpha0.clone()];
-    let mut fitted = false;
+    let mut fitted = 0usize;
+    // a second fit on the already fitted problem (refit) is allowed occasionally
+    let max_fits = if rng.chance(0.15) { 2 } else { 1 };
     let mut converted = false;
     while ops.len() < n_ops {
         let r = rng.unit();
@@ -48,8 +50,8 @@ pub fn gen_script(rng: &mut Rng, sc: &Scenario, d: &DataGen, cfg: ScriptCfg) -> 
                 converted = true;
                 ops.push(Op::IntoSequential);
             }
-        } else if r < 0.88 + cfg.p_fit && !fitted {
-            fitted = true;
+        } else if r < 0.88 + cfg.p_fit && fitted < max_fits {
+            fitted += 1;
             if !sc.mrhs && rng.chance(0.6) {
                 ops.push(Op::FitWithStatistics);
                 if cfg.allow_band && rng.chance(0.5) {
